@@ -23,7 +23,7 @@ from vzstatic import cfg as cfgmod
 from vzstatic import flow
 from vzstatic.index import ClassInfo, FuncInfo, dotted
 from vzstatic.selftest import Variant
-from vzstatic.source import AnalysisError, loc, unparse
+from vzstatic.source import AnalysisError, ancestors, loc, unparse
 from vzstatic.svc import GRPC_UTIL, Svc, where
 from vzstatic.typestate import FRESH, TypeState, Val
 
@@ -141,6 +141,95 @@ def r4_terminator(ctx, svc: Svc) -> None:
     raise AnalysisError(f'only {n_sites} handle_exception call sites found in RPC methods')
 
 
+def _table_arms(ctx, he, exc_param):
+  """Table form of the error mapping: handle_exception (or a module-level helper it calls with the
+  exception) tests `isinstance(e, <classes>)` where <classes> is bound by iterating an ordered module-level
+  table of (classes, status code) rows; the first matching row wins when the match returns/breaks or feeds
+  `next(...)`, the last one otherwise.  Returns arms in decision order, or [] when the form is absent."""
+  mod = he.module
+  cands = [(he.node, exc_param)]
+  for c in flow.calls_in(he.node):
+    if isinstance(c.func, ast.Name) and c.func.id in mod.functions:
+      callee = mod.functions[c.func.id]
+      for i, a in enumerate(c.args):
+        if isinstance(a, ast.Name) and a.id == exc_param and i < len(callee.params):
+          cands.append((callee.node, callee.params[i]))
+
+  def module_value(e, depth=0):
+    while isinstance(e, ast.Name) and e.id in mod.assigns and depth < 4:
+      e, depth = mod.assigns[e.id], depth + 1
+    return e
+
+  for fn, param in cands:
+    for t in ast.walk(fn):
+      if not (isinstance(t, ast.Call) and dotted(t.func) == 'isinstance' and len(t.args) == 2
+              and isinstance(t.args[0], ast.Name) and t.args[0].id == param and isinstance(t.args[1], ast.Name)):
+        continue
+      var = t.args[1].id
+      # binder: enclosing for-loop or comprehension whose target holds `var`
+      binder = None
+      first_wins = True
+      for a in ancestors(t):
+        gens = a.generators if isinstance(a, (ast.GeneratorExp, ast.ListComp)) else []
+        for gen in gens:
+          if any(isinstance(x, ast.Name) and x.id == var for x in ast.walk(gen.target)):
+            binder = (gen.target, gen.iter)
+        if binder:
+          break
+        if isinstance(a, ast.For) and any(isinstance(x, ast.Name) and x.id == var for x in ast.walk(a.target)):
+          binder = (a.target, a.iter)
+          guard = next((x for x in ancestors(t) if isinstance(x, ast.If) and any(y is t for y in ast.walk(x.test))), None)
+          first_wins = guard is not None and any(isinstance(y, (ast.Return, ast.Break)) for st in guard.body for y in ast.walk(st))
+          break
+        if a is fn:
+          break
+      if binder is None:
+        continue
+      target, it = binder
+      via_items = isinstance(it, ast.Call) and isinstance(it.func, ast.Attribute) and it.func.attr == 'items' and not it.args
+      table = module_value(it.func.value if via_items else it)
+      rows = []
+      if isinstance(table, ast.Dict) and via_items:
+        rows = list(zip(table.keys, table.values))
+      elif isinstance(table, (ast.Tuple, ast.List)) and not via_items:
+        rows = [tuple(r.elts) for r in table.elts if isinstance(r, ast.Tuple) and len(r.elts) == 2]
+        if len(rows) != len(table.elts):
+          rows = []
+      if not rows or not (isinstance(target, ast.Tuple) and len(target.elts) == 2
+                          and all(isinstance(x, ast.Name) for x in target.elts)):
+        continue
+      pos = [x.id for x in target.elts].index(var)
+      arms = []
+      for r in rows:
+        cls_e = module_value(r[pos])
+        classes = cls_e.elts if isinstance(cls_e, (ast.Tuple, ast.List)) else [cls_e]
+        code_e = module_value(r[1 - pos])
+        d = dotted(code_e) or ''
+        codes = {d.rsplit('.', 1)[1]} if '.StatusCode.' in d else set()
+        arms.append(([ctx.lattice.name_of(mod, c) for c in classes], codes, t))
+      if not first_wins:
+        arms.reverse()
+      # the looked-up code must be what set_code receives
+      setc = [c for c in flow.calls_in(he.node) if isinstance(c.func, ast.Attribute) and c.func.attr == 'set_code' and c.args]
+      fed = False
+      for c in setc:
+        arg = flow.resolve_local(he.node, c.args[0])
+        if any(x is t for x in ast.walk(arg)):
+          fed = True
+        if isinstance(arg, ast.Call) and isinstance(arg.func, ast.Name) and arg.func.id in mod.functions \
+            and mod.functions[arg.func.id].node is fn:
+          fed = True
+        if isinstance(arg, ast.Name) and fn is he.node:
+          code_var = target.elts[1 - pos].id
+          fed = fed or any(isinstance(st, ast.Assign) and isinstance(st.targets[0], ast.Name) and st.targets[0].id == arg.id
+                           and isinstance(st.value, ast.Name) and st.value.id == code_var for st in ast.walk(fn))
+      if not fed:
+        continue
+      ctx.count('error_table_rows', len(arms))
+      return arms
+  return []
+
+
 # ----------------------------------------------------------------------- R5
 def r5_error_table(ctx, svc: Svc) -> None:
   he = ctx.index.need_func(f'{GRPC_UTIL}.handle_exception')
@@ -177,6 +266,8 @@ def r5_error_table(ctx, svc: Svc) -> None:
       walk_chain(st)
       if len(arms) > before:
         break
+  if not arms:
+    arms = _table_arms(ctx, he, exc_param)
   if not arms:
     raise AnalysisError('isinstance chain not found in handle_exception')
   for cname, cinfo in errmod.classes.items():
